@@ -144,10 +144,18 @@ Print Assumptions C20_fms_model_passes_checker.
 Theorem C20_summary_checker_sound :
   forall data obs, C20_summary_check data obs = true ->
     exists s, obs = Some s /\
-      (data <> [] -> is_median2 data (s_med4 s / 2) = true /\ s_iqr4 s = s_q3_4 s - s_q1_4 s /\
-                     ((2 <= length data)%nat -> s_q1_4 s <= s_med4 s <= s_q3_4 s)).
+      s_med4 s = 2 * conv_median2 (sortZ data) /\
+      s_q1_4 s = 2 * conv_median2 (firstn (length data / 2) (sortZ data)) /\
+      s_q3_4 s = 2 * conv_median2 (skipn (length data - length data / 2) (sortZ data)) /\
+      s_iqr4 s = s_q3_4 s - s_q1_4 s /\
+      (data <> [] -> is_median2 data (s_med4 s / 2) = true).
 Proof. exact C20_summary_check_sound. Qed.
 Print Assumptions C20_summary_checker_sound.
+
+Theorem C20_summary_model_passes_checker :
+  forall data, C20_summary_check data (res_opt (stats_summary true data)) = true.
+Proof. exact summary_fixed_passes. Qed.
+Print Assumptions C20_summary_model_passes_checker.
 
 Theorem C20_expected_checker_sound :
   forall ups logs neg total, C20_expected_check ups logs neg total = true ->
